@@ -27,9 +27,19 @@ def run(R):
     for tgt, h, iw, off, mf, ml in cases.locate_cases(rng, 3000 if quick else 50000, 12):
         h = dict(h); h["os"] = rng.choice([h["os"], 2**40, 2**61 - 1, 2**61 - 808]); 
         lc.append((tgt, h, iw, rng.choice([0, 2**40, -(2**40)]), rng.choice([2, 2**31 - 1]), ml))
+    # two hunks: the first drags the accumulated offset to about -2^61, the second starts its search from there
+    for tgt, h, iw, off, mf, ml in cases.locate_cases(rng, 600 if quick else 6000, 12):
+        for off2 in (-(2**61) + 5, -(2**62), 2**61):
+            lc.append((tgt, h, iw, off2, mf, ml))
+    R.stall_s = 15
     t0 = time.time()
-    R.tie("T2-locate-big-numbers", [cases.enc_locate(c) for c in lc])
+    qs2, ri2, _ = R.tie("T2-locate-big-numbers", [cases.enc_locate(c) for c in lc])
     R.dist["T2 big-number batch wall_s"] = round(time.time() - t0, 2)
+    for v in R.violations:
+        # a request the in-process harness never answers is a failing input of this property, not only a broken tie
+        if v.get("kind") == "tie-broken" and str(v.get("implementation", "")).startswith("hang"):
+            v["kind"] = "impl-violates"; v.pop("no_input", None)
+            v["summary"] = "no answer within 15 s (the work depends on a number written in the request): " + v["tie"]
     # the program under a CPU limit: numbers up to 2^63-1, headers with no body, repeated git headers
     P = scen.Producers()
     jobs, meta = [], []
@@ -54,6 +64,26 @@ def run(R):
             opts = rng.choice([[], [b"-R"], [b"-N"], [b"-f"], [b"-F", b"2147483647"], [b"-l"]])
             jobs.append(dict(cut=R.cut, tree=drv.tree_with_patch(A, text), argv=opts + [b"-p1", b"-i", drv.PATCHNAME], timeout=10))
             meta.append((text, opts, jobs[-1]["tree"]))
+        # git headers with no body at all, binary markers, and everything that makes patch create directories for an
+        # absolute path (@ROOT@ = the scratch directory): new file, rejects of a failing hunk, -o, -r, git rename/copy
+        A0 = {b"a/f": ("f", b"one\ntwo\nthree\n", 0o644), b"a/g": ("f", b"x\n", 0o644)}
+        hunk = b"@@ -1,3 +1,3 @@\n one\n-two\n+TWO\n three\n"
+        bad = b"@@ -1,3 +1,3 @@\n one\n-zwei\n+TWO\n drei\n"
+        fixed = [
+            (b"diff --git a/f b/f\nGIT binary patch\n", []), (b"diff --git a/f b/f\nGIT binary patch\nliteral 3\nabc\n\n", []),
+            (b"diff --git a/f b/f\nindex 1..2\nGIT binary patch\n", []), (b"diff --git a/f b/f\nGIT binary patch\n" * 3, []),
+            (b"diff --git a/f b/f\nBinary files a/f and b/f differ\n", []), (b"diff --git a/f b/f\n", []), (b"diff --git a/f b/f\n\n", []),
+            (b"--- /dev/null\n+++ @ROOT@/new/dir/file.txt\n@@ -0,0 +1 @@\n+hello\n", [b"-p0"]),
+            (b"--- @ROOT@/a/f\n+++ @ROOT@/a/f\n" + bad, [b"-p0"]), (b"--- @ROOT@/a/f\n+++ @ROOT@/a/f\n" + hunk, [b"-p0"]),
+            (b"--- a/f\n+++ a/f\n" + hunk, [b"-p0", b"-o", b"@ROOT@/out/dir/o.txt"]), (b"--- a/f\n+++ a/f\n" + bad, [b"-p0", b"-r", b"@ROOT@/rej/dir/r.rej"]),
+            (b"diff --git a/a/f b/@ROOT@/mv/f\nrename from a/f\nrename to @ROOT@/mv/f\n", [b"-p0"]),
+            (b"diff --git a/a/f b/a/h\ncopy from a/f\ncopy to @ROOT@/cp/h\n", [b"-p0"]),
+            (b"--- a/f\n+++ a/f\n" + hunk, [b"-p0", b"-B", b"@ROOT@/bk/", b"-b"]),
+        ]
+        for text, opts in fixed:
+            for extra in ([], [b"-R"], [b"--dry-run"]):
+                jobs.append(dict(cut=R.cut, tree=drv.tree_with_patch({}, text, extra=A0), argv=opts + extra + [b"-i", drv.PATCHNAME], timeout=10))
+                meta.append((text, opts + extra + [b"@fixed"], jobs[-1]["tree"]))
     finally:
         P.close()
     t0 = time.time()
@@ -61,10 +91,13 @@ def run(R):
     slow = 0
     for (text, opts, tree_), r in zip(meta, res):
         R.evaluations += 1; R.nontrivial.add(hash((text, tuple(opts))))
-        data = {"patch_hex": text.hex(), "argv": [a.decode() for a in opts] + ["-p1", "-i", "__patch.diff"], "wall_s": round(r.wall, 2), "exit": r.exit}
+        fx = opts and opts[-1] == b"@fixed"
+        if fx:
+            opts = opts[:-1]
+        data = {"patch_hex": text.hex(), "argv": [a.decode() for a in opts] + ([] if fx else ["-p1"]) + ["-i", "__patch.diff"], "wall_s": round(r.wall, 2), "exit": r.exit}
         if r.timeout:
             R.oracle_fail(f"patch did not terminate within 10 s on a {len(text)} byte patch", data)
-        elif r.wall > 2.0 and box.run(R.cut, tree_, opts + [b"-p1", b"-i", drv.PATCHNAME], timeout=30).wall > 2.0:
+        elif r.wall > 2.0 and box.run(R.cut, tree_, opts + ([] if fx else [b"-p1"]) + [b"-i", drv.PATCHNAME], timeout=30).wall > 2.0:
             # (measured again alone: the first measurement was taken with 15 other runs in flight)
             slow += 1
             R.oracle_fail(f"patch needed {r.wall:.1f} s for a {len(text)} byte patch and a small target (running time depends on a number written in the patch?)", data)
@@ -73,5 +106,6 @@ def run(R):
 
 RULE = ("parser section loop on generated, malformed and special streams (headers with no body, repeated git headers, ranges up to 2^63-1): must leave the "
         "stream (64-pass guard in the harness); locate_hunk with stated lines up to 2^61 (whole batch timed); sb_patch under a 10 s limit on patches of a few "
-        "KiB with huge numbers, repeated/hunk-less git headers and mutations: no timeout, no run above 2 s.")
+        "KiB with huge numbers, repeated/hunk-less git headers, binary markers, absolute target/-o/-r/-B paths and mutations: no timeout, no run above 2 s; "
+        "a locate request the harness does not answer within 15 s is a failing input.")
 ASSUME = ["wall-clock limits stand in for the polynomial bound; the bound itself is the theorem on the model's step counts"]
